@@ -6,7 +6,6 @@ package reservation
 
 import (
 	"fmt"
-	"strings"
 	"testing"
 
 	corev1 "k8s.io/api/core/v1"
@@ -126,7 +125,7 @@ func (w *c05World) opRsvAssume() bool {
 	w.c.Op("scheduler: Reserve of reserve pod -> assumeReservation(%s on %s)", obj.UID, obj.Status.NodeName)
 	if w.seenUnbound[obj.UID] {
 		w.c.Count("rsv_unbound_then_bound_in_cache", 1)
-		if w.indexed && c05Indexed(obj.Labels) {
+		if w.indexed && w.anyCovered(obj.Labels) {
 			w.c.Count("rsv_unbound_then_bound_in_cache_indexed_labels", 1)
 		}
 	}
@@ -173,6 +172,10 @@ func (w *c05World) opRsvBindOK() bool {
 	}
 	s := kit.Pick(w.r, cand)
 	c05MakeAvailable(s.cur, s.assumed.Status.NodeName)
+	if w.r.Pct(15) { // placed, but not yet ready for allocation
+		s.cur.Status.Phase = schedulingv1alpha1.ReservationWaiting
+		w.c.Count("op_rsv_bind_ok_waiting", 1)
+	}
 	w.pushRsv(s)
 	s.assumed = nil
 	w.c.Op("api: reserve pod bound -> %s", c05RsvStr(s.cur))
@@ -223,6 +226,13 @@ func (w *c05World) opRsvUpdate(dimsMayChange bool) bool {
 	before := s.cur.DeepCopy()
 	res := s.cur
 	what := ""
+	if c05RsvWaiting(res) && r.Pct(50) {
+		res.Status.Phase = schedulingv1alpha1.ReservationAvailable
+		w.pushRsv(s)
+		w.c.Op("api: waiting reservation became available -> %s", c05RsvStr(s.cur))
+		w.c.Count("op_rsv_waiting_to_available", 1)
+		return true
+	}
 	switch r.Weighted(18, 10, 12, 10, 12, 10, 14, 6, 8) {
 	case 0:
 		what = "labels"
@@ -258,7 +268,11 @@ func (w *c05World) opRsvUpdate(dimsMayChange bool) bool {
 				}
 			}
 		}
-		c05SetInnerReserved(res, inner)
+		if r.Pct(20) {
+			c05SetInnerReservedCPUs(res, inner, kit.Pick(r, []string{"0", "0-1", "1,3", "0-2,5"}))
+		} else {
+			c05SetInnerReserved(res, inner)
+		}
 	case 6:
 		what = "reserved amounts"
 		alloc := c05PodRequests(&corev1.Pod{Spec: res.Spec.Template.Spec})
@@ -275,8 +289,8 @@ func (w *c05World) opRsvUpdate(dimsMayChange bool) bool {
 				}
 			}
 		}
-		res.Spec.Template = c05Template(alloc)
-		if c05RsvAvailable(res) {
+		res.Spec.Template = c05TemplateR(r, alloc)
+		if res.Status.NodeName != "" {
 			res.Status.Allocatable = alloc.DeepCopy()
 		}
 	case 7:
@@ -339,7 +353,7 @@ func (w *c05World) opRsvMove() bool {
 func (w *c05World) opRsvTerminate() bool {
 	var cand []*c05RsvSlot
 	for _, s := range w.rsvs {
-		if s.cur != nil && (c05RsvAvailable(s.cur) || c05RsvUnassigned(s.cur) && s.assumed == nil) {
+		if s.cur != nil && (c05RsvAvailable(s.cur) || c05RsvWaiting(s.cur) || c05RsvUnassigned(s.cur) && s.assumed == nil) {
 			cand = append(cand, s)
 		}
 	}
@@ -492,7 +506,7 @@ func (w *c05World) opRsvDeliver() bool {
 		if active(nv) && w.seenUnbound[nv.UID] && w.live[nv.UID] {
 			if ri := w.cache.reservationInfos[nv.UID]; ri != nil && ri.GetNodeName() == "" {
 				w.c.Count("rsv_unbound_then_bound_in_cache", 1)
-				if w.indexed && c05Indexed(nv.Labels) {
+				if w.indexed && w.anyCovered(nv.Labels) {
 					w.c.Count("rsv_unbound_then_bound_in_cache_indexed_labels", 1)
 				}
 			}
@@ -553,6 +567,10 @@ func (w *c05World) opPodCreate() bool {
 	rl := c05GenRequests(r, []int{80, 65, 25, 10})
 	p := &corev1.Pod{ObjectMeta: metav1.ObjectMeta{Namespace: "default", Name: s.name, UID: w.newUID("p"), Labels: map[string]string{"app": "a"}, Annotations: map[string]string{}},
 		Spec: corev1.PodSpec{Containers: c05Containers(r, rl)}, Status: corev1.PodStatus{Phase: corev1.PodPending}}
+	c05Shape(r, &p.Spec)
+	if len(p.Spec.InitContainers) > 0 || p.Spec.Overhead != nil {
+		w.c.Count("op_pod_create_init_or_overhead", 1)
+	}
 	s.cur = p
 	if s.operating {
 		p.Labels[apiext.LabelPodOperatingMode] = string(apiext.ReservationPodOperatingMode)
@@ -630,7 +648,16 @@ func (w *c05World) opPodSchedule(deliverSome func()) bool {
 	sortRInfos(seen)
 	var ok []*frameworkext.ReservationInfo
 	for _, ri := range seen {
-		if ri.Reservation == nil || !ri.MatchOwners(pod) || ri.IsUnschedulable() {
+		if !ri.MatchOwners(pod) || ri.IsUnschedulable() {
+			continue
+		}
+		if ri.Reservation == nil { // a reservation-operating-mode pod: always allocate-once, never Restricted
+			if len(ri.AssignedPods) > 0 {
+				w.c.Count("cycle_skipped_allocate_once_taken", 1)
+				continue
+			}
+			w.c.Count("cycle_operating_pod_reservation_usable", 1)
+			ok = append(ok, ri)
 			continue
 		}
 		if c05AllocateOnce(ri.Reservation) && len(ri.AssignedPods) > 0 {
@@ -663,6 +690,9 @@ func (w *c05World) opPodSchedule(deliverSome func()) bool {
 		return true
 	}
 	w.c.Count("op_pod_reserve", 1)
+	if ri.Reservation == nil {
+		w.c.Count("op_pod_reserve_on_operating_pod", 1)
+	}
 	if !w.live[ri.UID()] {
 		w.c.Harness("assumePods succeeded on reservation %s which the model believes is not in the cache", ri.UID())
 	}
@@ -672,9 +702,9 @@ func (w *c05World) opPodSchedule(deliverSome func()) bool {
 	return true
 }
 
-func c05Indexed(labels map[string]string) bool {
+func (w *c05World) anyCovered(labels map[string]string) bool {
 	for k := range labels {
-		if k == c05IdxKey || strings.HasPrefix(k, c05IdxPrefix) {
+		if w.covered(k) {
 			return true
 		}
 	}
@@ -856,8 +886,14 @@ func (w *c05World) opPodMutate() bool {
 	s := kit.Pick(r, cand)
 	cur := s.cur
 	bound := cur.Spec.NodeName != "" && !c05PodTerminated(cur)
-	kind := r.Weighted(30, 20, 25, 25)
+	kind := r.Weighted(30, 20, 25, 25, 10)
 	switch {
+	case kind == 4 && cur.DeletionTimestamp == nil:
+		ts := metav1.Unix(1700000000, 0)
+		cur.DeletionTimestamp = &ts
+		w.pushPod(s)
+		w.c.Op("api: pod %s(%s) is terminating (deletion timestamp set)", cur.Name, cur.UID)
+		w.c.Count("op_pod_terminating", 1)
 	case kind == 1 && bound && !s.operating && len(s.queue) == 0 && s.delivered != nil && s.delivered.UID == cur.UID && s.delivered.Spec.NodeName != "":
 		rl := c05GenRequests(r, []int{80, 65, 25, 10})
 		cur.Spec.Containers = c05Containers(r, rl)
@@ -912,6 +948,45 @@ func (w *c05World) opPodDelete() bool {
 	s.cur = nil
 	w.pushPod(s)
 	w.c.Count("op_pod_delete", 1)
+	return true
+}
+
+// opResync: the informer re-delivers an object it already delivered (periodic resync / an update that
+// changed nothing the handlers look at): OnUpdate(obj, obj).
+func (w *c05World) opResync() bool {
+	if w.r.Bool() {
+		var cand []*c05RsvSlot
+		for _, s := range w.rsvs {
+			if s.delivered != nil && len(w.global) == 0 {
+				cand = append(cand, s)
+			}
+		}
+		if len(cand) == 0 {
+			return false
+		}
+		s := kit.Pick(w.r, cand)
+		w.c.Op("informer(plugin handler): resync OnUpdate %s unchanged", c05RsvStr(s.delivered))
+		w.rh.OnUpdate(s.delivered, s.delivered)
+		if x := s.delivered; x.Status.NodeName != "" && (x.Status.Phase == schedulingv1alpha1.ReservationAvailable || x.Status.Phase == schedulingv1alpha1.ReservationWaiting) {
+			w.live[x.UID] = true
+		}
+		w.c.Count("op_rsv_resync", 1)
+		return true
+	}
+	var cand []*c05PodSlot
+	for _, s := range w.pods {
+		if s.delivered != nil {
+			cand = append(cand, s)
+		}
+	}
+	if len(cand) == 0 {
+		return false
+	}
+	s := kit.Pick(w.r, cand)
+	w.c.Op("informer(pod handler): resync OnUpdate %s unchanged", c05PodStr(s.delivered))
+	w.ph.OnUpdate(s.delivered, s.delivered)
+	w.podDelivered(s.delivered, s.delivered)
+	w.c.Count("op_pod_resync", 1)
 	return true
 }
 
@@ -981,15 +1056,32 @@ func TestVerifC05Ledger(t *testing.T) {
 				owner: map[types.UID]types.UID{}, live: map[types.UID]bool{}, wentAway: map[types.UID]bool{}, dimsSince: map[string]map[corev1.ResourceName]bool{}, seenUnbound: map[types.UID]bool{}, moved: map[types.UID]bool{}}
 			w.indexed = r.Bool()
 			if w.indexed {
-				cache.setReservationSelectorIndexConfig(&config.ReservationSelectorIndexArgs{Enabled: true, KeyPrefixes: []string{c05IdxPrefix}, Keys: []string{c05IdxKey}})
+				cfg := c05IndexConfigs[0]
+				if r.Bool() {
+					cfg = kit.Pick(r, c05IndexConfigs[1:])
+					c.Count("cases_with_unusual_index_config", 1)
+				}
+				w.idxPrefixes, w.idxKeys = cfg.prefixes, cfg.keys
+				cache.setReservationSelectorIndexConfig(&config.ReservationSelectorIndexArgs{Enabled: true, KeyPrefixes: cfg.prefixes, Keys: cfg.keys})
 			}
-			for i, n := 0, r.Range(2, 3); i < n; i++ {
+			// sizes: mostly the small universe (2-3 nodes, 3-6 reservation names, 4-10 pod names); a fifth of
+			// the cases is wider (1-5 nodes, 2-8 reservation names, 3-14 pod names)
+			wide := r.Pct(20)
+			nn, nr, np := r.Range(2, 3), r.Range(3, 6), r.Range(4, 10)
+			if wide {
+				nn, nr, np = r.Range(1, 5), r.Range(2, 8), r.Range(3, 14)
+				c.Count("cases_wide_universe", 1)
+				if nn == 1 {
+					c.Count("cases_single_node", 1)
+				}
+			}
+			for i := 0; i < nn; i++ {
 				w.nodes = append(w.nodes, fmt.Sprintf("node-%d", i))
 			}
-			for i, n := 0, r.Range(3, 6); i < n; i++ {
+			for i := 0; i < nr; i++ {
 				w.rsvs = append(w.rsvs, &c05RsvSlot{name: fmt.Sprintf("rsv-%d", i)})
 			}
-			for i, n := 0, r.Range(4, 10); i < n; i++ {
+			for i := 0; i < np; i++ {
 				w.pods = append(w.pods, &c05PodSlot{name: fmt.Sprintf("pod-%d", i)})
 			}
 			if r.Pct(30) {
@@ -997,7 +1089,7 @@ func TestVerifC05Ledger(t *testing.T) {
 			}
 			dimsMayChange := r.Pct(30)
 			nodeMoves := r.Pct(10)
-			c.Op("nodes=%v reservations=%d pods=%d operatingPod=%v selectorIndex=%v dimsMayChange=%v nodeMoves=%v", w.nodes, len(w.rsvs), len(w.pods), w.pods[0].operating, w.indexed, dimsMayChange, nodeMoves)
+			c.Op("nodes=%v reservations=%d pods=%d operatingPod=%v selectorIndex=%v prefixes=%q keys=%q dimsMayChange=%v nodeMoves=%v", w.nodes, len(w.rsvs), len(w.pods), w.pods[0].operating, w.indexed, w.idxPrefixes, w.idxKeys, dimsMayChange, nodeMoves)
 			deliverSome := func() {
 				for i, n := 0, r.Range(1, 2); i < n; i++ {
 					did := false
@@ -1015,10 +1107,16 @@ func TestVerifC05Ledger(t *testing.T) {
 				}
 			}
 			nops := r.Range(60, 200)
+			if r.Pct(10) {
+				nops = r.Range(200, 320)
+				c.Count("cases_long_history", 1)
+			}
 			for step := 0; step < nops; step++ {
 				done := false
 				for try := 0; try < 6 && !done; try++ {
-					switch r.Weighted(7, 5, 5, 2, 8, 3, 3, 16, 6, 9, 13, 4, 8, 4, 3, 7, 4, 18, 4) {
+					switch r.Weighted(7, 5, 5, 2, 8, 3, 3, 16, 6, 9, 13, 4, 8, 4, 3, 7, 4, 18, 4, 4) {
+					case 19:
+						done = w.opResync()
 					case 18:
 						if nodeMoves && r.Pct(40) {
 							done = w.opRsvMove()
